@@ -611,3 +611,9 @@ package argmapper
 //@   modifies forall(x, *valueVertex, true), forall(x, *typedArgVertex, true), forall(x, *typedOutputVertex, true), forall(x, *Func, true), state, state.NamedValue, state.TypedValue, state.InputSet
 //@   loop 6 invariant failed == nil && planning == old(planning)
 //@   loop 7 invariant failed == nil && planning == old(planning)
+
+// value(): the exported description of a vertex (a fresh Value)
+//@ extern (valueConverter).value :: (v any) *Value
+//@   ensures result != nil && fresh(result)
+//@   assigns Value, valueInternal
+//@   modifies nothing
